@@ -110,6 +110,16 @@ def make_spec(rng, gen, kind, nsend=None, fail=None, shape=None):
     spec["wscript"] = ws
     spec["status_cb"] = rng.choice(["ret", "ret", "raise", "sleep", "yield", "none"])
     spec["refuse"] = rng.choice([0, 0, 1, 2])
+    if shape == "window":
+        # a second fault while the reconnect's connect() is still finishing (lock held during the slow CONNECTED
+        # status callback / the 10 ms cancel wait): the first message fails at its 2nd packet, the sends that start
+        # 150 ms and 300 ms later fail on the NEW writer, then the link is healthy
+        spec["sends"] = [{"msg": gen.message(rng, "fast"), "what": "fast", "delay": 150},
+                         {"msg": gen.message(rng, rng.choice(["fast", "single"])), "what": "x", "delay": rng.choice([150, 100, 305])},
+                         {"msg": gen.message(rng, "fast"), "what": "fast", "delay": 0}]
+        ws = [{"w": "ok", "d": "ret"}] + [{"w": "raise"} if rng.random() < 0.6 else {"w": "ok", "d": "raise"}
+                                           for _ in range(rng.choice([2, 3]))] + [{"w": "ok", "d": "ret"}] * 24
+        spec.update(wscript=ws, fail="w", fail_at=1, status_cb=rng.choice(["sleep", "sleep", "ret", "yield"]), refuse=0)
     if shape == "unconnected":
         spec["no_connect"] = True
     if shape == "close":
@@ -197,7 +207,19 @@ def oracle(spec, res):
             return ("bad-message-disturbs",
                     f"no write failed, yet status trace {st}, state {f['state']}, {f['nopen']} connection(s), "
                     f"{f['nconnect']} connect() call(s); unencodable messages in the session: {bad}")
-    # 4. a failing write leads to DISCONNECTED and a reconnection
+    # 4. a failing write leads to DISCONNECTED and a reconnection — for EVERY writer on which a write or drain failed
+    cur_w, bad_w = {}, set()
+    for e in body:
+        if e[0] == "w":
+            cur_w[e[1]] = e[2]
+        elif e[0] == "wraise":
+            bad_w.add(e[2])
+        elif (e[0] == "d" and e[2] == "raise") or (e[0] == "dres" and e[2] == "raise"):
+            if e[1] in cur_w:
+                bad_w.add(cur_w[e[1]])
+    if bad_w and (f.get("writer") in bad_w or f["nopen"] <= max(bad_w) + 1):
+        return "no-reconnect", (f"a write/drain failed on connection(s) {sorted(bad_w)} but the client ended on connection "
+                                f"{f.get('writer')} of {f['nopen']} opened (state {f['state']}): a failed link was kept")
     if link_failed:
         if "DISCONNECTED" not in st and spec.get("status_cb") != "none":
             return "fault-not-reported", f"a write/drain failed but the status trace is {st}"
@@ -276,6 +298,8 @@ def _specs(ctx, gen, per):
         for fail in ("w", "d", "dd"):
             specs.append(make_spec(rng, gen, kind, fail=fail))
         specs.append(make_spec(rng, gen, kind, shape="unconnected", fail=False))
+        specs.append(make_spec(rng, gen, kind, shape="window", fail=False))
+        specs.append(make_spec(rng, gen, kind, shape="window", fail=False))
         for fail in ("w", "dd", None):
             specs.append(make_spec(rng, gen, kind, shape="close", fail=fail))
         for _ in range(per):
